@@ -25,7 +25,8 @@ THEOREMS = [
     # round 3: names discharged from the tree shape, written lines, cache, linker order, kind -> role table
     "Inventory.roundtrip_wellNamed", "Inventory.visList_nodup", "Inventory.visList_full_ok", "Inventory.written_lines",
     "Inventory.parseMaxAge_raises_only_invalid", "Inventory.parseMaxAge_ok_iff", "Inventory.prepareCache_raises_iff",
-    "Inventory.prepareCache_total_partial", "Inventory.prepareCache_counterexample", "Inventory.fetch_total",
+    "Inventory.prepareCache_total_partial", "Inventory.prepareCache_missing_dir", "Inventory.prepareCache_counterexample",
+    "Inventory.prepareCacheOld_agrees", "Inventory.fetch_total",
     "Inventory.failed_download_reported", "Inventory.getLink_spec", "Inventory.getLink_truthy",
     "Inventory.xref_internal_first", "Inventory.xref_external_order", "Inventory.xref_external_is_getLink",
     "Inventory.linkTo_order", "Inventory.xref_roundtrip", "Inventory.role_table", "Inventory.role_is_sphinx_type",
@@ -35,10 +36,10 @@ THEOREMS = [
     "Inventory.old_good_lines_survive_counterexample",
 ]
 PARTIAL: dict = {
-    "Inventory.prepareCache_total_partial": "excludes --clear-intersphinx-cache with a cache directory that shutil.rmtree cannot remove "
-                                            "(e.g. it does not exist: FileNotFoundError reaches main, prepareCache_counterexample) and an "
+    "Inventory.prepareCache_total_partial": "excludes shutil.rmtree failing for a reason other than a missing directory (permissions ...) and an "
                                             "unparsable --intersphinx-cache-max-age when the cache is enabled (InvalidMaxAge); both happen "
-                                            "before any inventory is loaded and are outside the wording of C17 (recorded as an observation)",
+                                            "before any inventory is loaded and are outside the wording of C17. A missing cache directory is "
+                                            "covered since /repo f96af79 (prepareCache_missing_dir; prepareCache_counterexample is historical)",
 }
 RULE = ("(a) exhaustive: every line of <=6 space-separated tokens over {a, 1, -1, py:x, std:y, -, ''} through the real "
         "_parseInventoryLine and _parseInventory and through the Lean model, plus random lines over a wider token alphabet "
@@ -60,7 +61,7 @@ RULE = ("(a) exhaustive: every line of <=6 space-separated tokens over {a, 1, -1
         "recorded finding and the needed shape of every seeded change (priority-last line, header-truncated downloads, "
         "percent lines, a compressed body holding newline+'#', the stale-lookup sequence, a non-ASCII project). (e) cache: "
         "parseMaxAge on every string of <=4 characters over a 13-character alphabet + boundary values; prepareCache over "
-        "clear x enable x directory present/missing x 5 max-age strings; IntersphinxCache.get + "
+        "clear x enable x directory present/missing/not removable x 5 max-age strings; IntersphinxCache.get + "
         "System.fetchIntersphinxInventories with a fake session that returns bodies, raises 8 kinds of Exception or a "
         "BaseException; non-trivial = accepted max-age / a download fails. (f) linker: the real _EpydocLinker."
         "_resolve_identifier_xref and link_to on a real System for 21 identifiers x 6 contexts x random inventories "
@@ -1122,31 +1123,47 @@ def stream_cache(ctx: Ctx) -> None:
         ctx.count("maxage:" + out.split(" ")[0])
         if not out.startswith("ok") and out != "InvalidMaxAge":
             ctx.fail("parseMaxAge-raises:" + out, {"maxage": a}, f"parseMaxAge({a!r}) raised {out}, documented to raise InvalidMaxAge only")
-    # prepareCache: option combinations x cache directory present/missing
+    # prepareCache: option combinations x cache directory present / missing / not removable (rmtree raising PermissionError)
+    class ShutilProxy:
+        def __init__(self, fail: bool) -> None:
+            self.fail = fail
+
+        def rmtree(self, path, *a, **k):
+            if self.fail:
+                raise PermissionError(13, "Permission denied", path)
+            return shutil.rmtree(path, *a, **k)
     tmp = tempfile.mkdtemp(prefix="c17cache")
+    real_shutil = sphinx.shutil
     try:
-        for clear, enable, exists in itertools.product([False, True], repeat=3):
-            for age in ["1w", "5x", "0s", "12h", ""]:
-                path = tmp + "/cache"
-                shutil.rmtree(path, ignore_errors=True)
-                if exists:
-                    os.makedirs(path)
-                try:
-                    cache = sphinx.prepareCache(clearCache=clear, enableCache=enable, cachePath=path, maxAge=age,
-                                                sessionFactory=requests.Session)
-                except Exception as e:
-                    out = "OSError" if isinstance(e, OSError) else type(e).__name__
-                    if isinstance(e, OSError):
-                        ctx.count("preparecache:observation:clear-missing-dir-aborts")
-                else:
-                    heur = getattr(cache._session.adapters.get("http://"), "heuristic", None)
-                    out = "plain" if heur is None else "caching %d" % int(heur.delta.total_seconds())
-                    cache.close()
-                req = f"inventory preparecache {int(clear)} {int(enable)} {int((not clear) or exists)} {enc(age)}"
-                reqs.append(req); impls.append(out); pay.append({"preparecache": [clear, enable, exists, age]})
-                ctx.case(req, clear or enable)
-                ctx.count("preparecache:" + out.split(" ")[0])
+        for clear, enable in itertools.product([False, True], repeat=2):
+            for state in ["R", "M", "E"]:
+                for age in ["1w", "5x", "0s", "12h", ""]:
+                    path = tmp + "/cache"
+                    shutil.rmtree(path, ignore_errors=True)
+                    if state != "M":
+                        os.makedirs(path)
+                    sphinx.shutil = ShutilProxy(state == "E")  # type: ignore
+                    try:
+                        cache = sphinx.prepareCache(clearCache=clear, enableCache=enable, cachePath=path, maxAge=age,
+                                                    sessionFactory=requests.Session)
+                    except Exception as e:
+                        out = "OSError" if isinstance(e, OSError) else type(e).__name__
+                        if isinstance(e, FileNotFoundError):
+                            # fixed by /repo f96af79; reported again if it returns
+                            ctx.fail("prepare-cache:clear-missing-dir:FileNotFoundError", {"preparecache": [clear, enable, state, age]},
+                                     "--clear-intersphinx-cache with a cache directory that does not exist aborts the run")
+                    else:
+                        heur = getattr(cache._session.adapters.get("http://"), "heuristic", None)
+                        out = "plain" if heur is None else "caching %d" % int(heur.delta.total_seconds())
+                        cache.close()
+                    finally:
+                        sphinx.shutil = real_shutil  # type: ignore
+                    req = f"inventory preparecache {int(clear)} {int(enable)} {state} {enc(age)}"
+                    reqs.append(req); impls.append(out); pay.append({"preparecache": [clear, enable, state, age]})
+                    ctx.case(req, clear or enable)
+                    ctx.count("preparecache:" + out.split(" ")[0])
     finally:
+        sphinx.shutil = real_shutil  # type: ignore
         shutil.rmtree(tmp, ignore_errors=True)
     # IntersphinxCache.get + System.fetchIntersphinxInventories with a session that fails in assorted ways
     good = {k: seq_bytes(None, k, "valid")[0] for k in ("A", "B1", "C")}
